@@ -59,6 +59,8 @@ structure RS where
   table : Array Cmd := #[]
   /-- reserved words of the constructs being generated (preferred as plain arguments inside them) -/
   kwctx : List String := []
+  /-- nesting depth of case clauses being rendered -/
+  inCase : Nat := 0
 
 abbrev R := StateM RS
 
@@ -112,6 +114,11 @@ def opNode (w : String) : R Node := do
 def litPool : List String := ["a", "b", "c", "foo", "x1", "-l", "--opt", "1", "42", "a.b", "/bin/x", "./y", "a-b", "a_b", "@", "%", "+", ",", ":"]
 def reservedArgs : List String := ["if", "then", "else", "fi", "do", "done", "case", "esac", "in", "for", "while", "{", "}", "!", "function", "time"]
 def namePool : List String := ["a", "b", "x", "foo", "A1", "_v"]
+
+def hasCaseWord : Str → Bool
+  | 'c' :: 'a' :: 's' :: 'e' :: _ => true
+  | _ :: r => hasCaseWord r
+  | [] => false
 
 def hasContinuationR : Str → Bool
   | '\\' :: '\n' :: _ => true
@@ -185,6 +192,8 @@ def renderWord (renderBody : Nat → R (Option Node)) (w : AWord) (asAssign : Op
         let e ← here
         let txt := ((← get).out.toList.take e).drop a
         if (txt.drop 2).head? == some (Char.ofNat 40) then rtag "+arithmetic-lookalike"
+        if (← get).inCase > 0 then rtag "+substitution-in-case-clause"
+        if hasCaseWord txt then rtag "+case-in-substitution"
         if hasContinuationR txt then rtag "+continuation-in-substitution"
         if (stripContinuationsR txt).contains '\n' then rtag "+newline-in-substitution"
         value := value ++ stripContinuationsR txt
@@ -202,6 +211,8 @@ def renderWord (renderBody : Nat → R (Option Node)) (w : AWord) (asAssign : Op
         if (stripContinuationsR txt).contains '\n' then rtag "+newline-in-substitution"
         value := value ++ stripContinuationsR txt
         if w.dq then rtag "+procsub-in-dquotes"
+        if (← get).inCase > 0 then rtag "+substitution-in-case-clause"
+        if hasCaseWord txt then rtag "+case-in-substitution"
         -- bashlex switches process substitution off for a word that starts with a double quote
         if !w.dq && (← get).out[start]? == some '"' then rtag "+procsub-after-leading-dquote"
         match body with
@@ -404,7 +415,9 @@ def renderCmd : Nat → Cmd → R Node
         match b with
         | some bc =>
           blank
+          modify fun st => { st with inCase := st.inCase + 1 }
           let bn ← renderCmd fuel bc
+          modify fun st => { st with inCase := st.inCase - 1 }
           if noSep then
             -- the newline before `esac` terminates the clause's compound_list: a list of more
             -- than one part gets the newline as an operator node
@@ -672,13 +685,13 @@ def genScript : R (List Node) := do
   if (← pick 8) == 0 then discard <| emit (← pickFrom ["\n", "  ", "# c\n", " \n"])
   for i in [0:nlines] do
     let depth ← pick 3
-    let c ← genList 6 depth
+    let c ← genList 40 depth
     -- optional trailing ';' or '&' of a top-level list
     let c ← (do match ← pick 6 with
       | 0 => pure (match c with | .list f r _ => Cmd.list f r (some .semi) | x => Cmd.list x [] (some .semi))
       | 1 => pure (match c with | .list f r _ => Cmd.list f r (some .amp) | x => Cmd.list x [] (some .amp))
       | _ => pure c)
-    out := out ++ [← renderCmd 8 c]
+    out := out ++ [← renderCmd 40 c]
     if i + 1 < nlines || (← pick 2) == 0 then newline
   return out
 
